@@ -103,10 +103,34 @@ def faults(report, folder):
     # (the attribute sits on the first cell of the first row: a cell with text, an empty cell, an empty cell in front of others)
     empty_first = odslib.plain_sheet([["", "b"], ["c", "d"]])
     only_empty = odslib.plain_sheet([[""], ["c"]])
-    for value in ("0", "00", "-1", "x", "", "1.5", "\u00b2"):  # (" 2" is a valid xs:positiveInteger: white space collapses)
+    # (" 2" is a valid xs:positiveInteger: white space collapses; digit grouping, digits of other scripts, exponents and
+    # other bases are no XML Schema integers)
+    for value in ("0", "00", "-1", "x", "", "1.5", "\u00b2", "1_0", "\u0663", "1e1", "0x2", "2 2"):
         for label, sheet_rows in (("a cell with text", good), ("an empty cell", empty_first), ("the only, empty cell of its row", only_empty)):
             odslib.write_ods(path, odslib.content_xml([sheet_rows], column_attribute=value))
             check("table:number-columns-repeated=%r on %s" % (value, label))
+    # the count of blanks of text:s is a repeat count too (xs:nonNegativeInteger)
+    for value in ("-1", "-3", "x", "", "1.5", "1_0", "\u0663"):
+        blanks = [{"rep": 1, "cells": [{"rep": 1, "paras": [[{"k": "raw", "text": "a"}, {"k": "markup", "xml": '<text:s text:c="%s"/>' % value},
+                                                              {"k": "raw", "text": "b"}]]}]}]
+        odslib.write_ods(path, odslib.content_xml([blanks]))
+        check("text:c=%r" % value)
+    # rows grouped in groups in groups ...: rows of the sheet all the same, or a data-format error, at any depth
+    for depth in (3, 40, 1500):
+        xml = odslib.content_xml([good]).replace("<table:table-row>", "<table:table-row-group>" * depth + "<table:table-row>", 1).replace(
+            "</table:table-row>", "</table:table-row>" + "</table:table-row-group>" * depth, 1)
+        odslib.write_ods(path, xml)
+        report.replayed += 1
+        try:
+            outcome = list(rowio.ods_rows(path, 1))
+            if outcome != [["a", "b"], ["c", "d"]]:
+                report.violation("c15", {"fault": "row groups nested %d deep" % depth}, [["a", "b"], ["c", "d"]], outcome,
+                                 "first row inside %d nested row groups: reading gives %r" % (depth, outcome))
+        except errors.DataFormatError:
+            pass
+        except Exception as error:  # noqa
+            report.violation("c15", {"fault": "row groups nested %d deep" % depth}, "rows or DataFormatError", type(error).__name__,
+                             "first row inside %d nested row groups: reading fails with %s: %s" % (depth, type(error).__name__, str(error)[:100]))
     for value in ("0", "-1", "x", ""):
         odslib.write_ods(path, odslib.content_xml([good], row_attribute=value))
         check("table:number-rows-repeated=%r" % value, signature="row-repeats-invalid")
